@@ -494,14 +494,14 @@ func (g *Gen) strLit(t types.Type, s string) *SVal {
 	if !g.ufDecl[n] {
 		g.ufDecl[n] = true
 		g.decls = append(g.decls, fmt.Sprintf("(declare-const %s Str)", n))
-		g.asms = append(g.asms, sEq(sApp("strlen", n), bv64(int64(len(s)))))
+		g.addAxiom(sEq(sApp("strlen", n), bv64(int64(len(s)))))
 		if len(s) <= 32 {
 			for i := 0; i < len(s); i++ {
-				g.asms = append(g.asms, sEq(sApp("strat", n, bv64(int64(i))), bvLit(big.NewInt(int64(s[i])), 8)))
+				g.addAxiom(sEq(sApp("strat", n, bv64(int64(i))), bvLit(big.NewInt(int64(s[i])), 8)))
 			}
 		}
 		if s == "" {
-			g.asms = append(g.asms, sEq(n, "str_empty"))
+			g.addAxiom(sEq(n, "str_empty"))
 		}
 	}
 	return scalar(t, KString, n)
@@ -516,7 +516,7 @@ func (g *Gen) globalAddr(x *ssa.Global) *SVal {
 		if !g.ufDecl[n] {
 			g.ufDecl[n] = true
 			g.decls = append(g.decls, fmt.Sprintf("(declare-const %s (_ BitVec 64))", n))
-			g.asms = append(g.asms, sAnd(sNot(sEq(n, bv64(0))), sEq(objOf(n), n)))
+			g.addAxiom(sAnd(sNot(sEq(n, bv64(0))), sEq(objOf(n), n)))
 		}
 		return &SVal{T: x.Type(), K: KPtr, Term: n, Imm: imm}
 	}
@@ -915,10 +915,15 @@ func (f *Frame) unop(x *ssa.UnOp) *SVal {
 		if v.Imm {
 			st = g.immState()
 		}
-		if v.Off != "" && kindOf(et) == KArray {
-			panic(unsupported("whole-array load at an offset"))
-		}
 		r := g.load(st, v, et)
+		if gl, ok := x.X.(*ssa.Global); ok && v.Imm && r.K == KIface {
+			if id := g.P.errGlobals[gl.String()]; id > 0 {
+				// sentinel errors created by errors.New/fmt.Errorf in package init: non-nil, pairwise distinct
+				g.note("package-level errors initialised by errors.New/fmt.Errorf and never reassigned are non-nil and pairwise distinct")
+				tag := bvLit(big.NewInt(int64(g.W.typeTag(types.NewPointer(types.NewNamed(types.NewTypeName(0, nil, "errors.errorString", nil), types.NewStruct(nil, nil), nil))))), 32)
+				g.assume("true", sAnd(sEq(r.Sub[0].Term, tag), sEq(r.Sub[1].Term, bv64(int64(1<<39)+int64(id)<<4))))
+			}
+		}
 		if hasRefs(et) {
 			if ver := g.versionOf(st, v, et); ver != "" {
 				g.assume(f.curReach, g.refFactsVer(f.curState, ver, r))
